@@ -188,6 +188,31 @@ Theorem C04_frame_legacy_refuted :
 Proof. vm_compute. repeat split; discriminate. Qed.
 Print Assumptions C04_frame_legacy_refuted.
 
+(** ** Known finding (not repaired): without the guard on creates the statement is false of the faithful model.
+    removeLayer scans the stored manifests only, not the layer list in the making: a create from a GGUF with an
+    auto-detected params layer (content 21), a LICENSE whose text has the very same bytes, and a PARAMETER override
+    deletes blob 21 while the license layer still points to it.  (Reproduced on the real code: corpus case
+    "inflight-layer-deleted" of props/c04.py.)  [C04_listed_complete] above is the partial statement: its guard
+    [create_check] excludes exactly these creates, and holds for every create FROM a model (C04_create_check_from). *)
+Definition C04_listed_complete_full : Prop := forall size_of os n m l,
+  mget n (exec_all size_of empty_store os) = Some (Readable m) -> In l (all_layers m) ->
+  bget (dhex (ldg l)) (exec_all size_of empty_store os) = Some (dhex (ldg l)).
+
+Definition inflight_ops : list op :=
+  [ OBlob (MkDigest true 1) 1
+  ; OCreate (MkCreate ex_a (BFiles (MkDigest true 1) [(0, None)] false [(3, 20); (5, 21)]) None None [21] (Some 22) None 30) ].
+
+Theorem C04_listed_complete_refuted : ~ C04_listed_complete_full.
+Proof.
+  intros H. specialize (H ex_sz inflight_ops ex_a). vm_compute in H.
+  specialize (H _ (MkLayer 7 (MkDigest true 21) 31) eq_refl). discriminate H. right. right. left. reflexivity.
+Qed.
+Print Assumptions C04_listed_complete_refuted.
+
+Example C04_inflight_guard_false :
+  op_guard ex_sz (exec ex_sz empty_store (OBlob (MkDigest true 1) 1)) (nth 1 inflight_ops OStartup) = false.
+Proof. reflexivity. Qed.
+
 (** ** Known finding (not repaired): a listed model without a model layer cannot be shown *)
 Definition C04_listed_showable_full : Prop := forall size_of os,
   op_guards size_of empty_store os ->
